@@ -56,3 +56,24 @@ def install(w):
                    " or (is_none(self.skipping[j]) and same(old(self.skipping[j]), node))"
                    " or same(self.skipping[j], BREAK))"]}},
                props={"C11", "C12"})
+
+
+def install_validate(w):
+    VV = "graphql.validation.validate"
+    w.alias("ValidationAbortedError", "graphql.validation.validate.ValidationAbortedError")
+    # the error-limit callback of validate(): appends while below the limit, else aborts
+    w.contract(f"{VV}.validate.<locals>.on_error", params={"error": "opaque"},
+               closure={"errors": ("list", "dyn"), "max_errors": "int"},
+               ensures=["old(len(errors)) < max_errors", "len(errors) == old(len(errors)) + 1"],
+               raises=["ValidationAbortedError"],
+               on_raise={"ValidationAbortedError": ["len(errors) >= max_errors",
+                                                   "len(errors) == old(len(errors))"]},
+               modifies=[], props={"C12"})
+
+
+_install = install
+
+
+def install(w):   # noqa: F811
+    _install(w)
+    install_validate(w)
